@@ -59,7 +59,25 @@ def sendOut (v : Version) (r : SendResult) : String :=
     let sq := if v = .highloadV2R2 then "-" else toString s.seqno
     s!"{tag} sent=1 dest={s.destWc}:{hexOut s.destHash} init={if s.init then 1 else 0} seqno={sq}"
 
+def natOfBytes (bs : List UInt8) : Nat := bs.foldl (fun a b => a * 256 + b.toNat) 0
+def hex32 (n : Nat) : String := Tongo.Hex.encode ((List.range 32).map fun i => UInt8.ofNat (n / 256 ^ (31 - i) % 256))
+
 def opsC15 : List (String × Handler) := [
+  -- w.codehash <ver> <code>   the hash of the version's PUBLISHED code (model table); the cell handed over (the library's
+  --   code constant) must hash to it
+  ("w.codehash", fun
+    | [ver, code] =>
+      match ver.toNat?, cellArg code with
+      | some ver, some code =>
+        match Version.ofGoIndex? ver with
+        | none => "bad-op"
+        | some v =>
+          match code.hashO? sha256 with
+          | .ok h => if natOfBytes h == publishedCodeHash v then s!"ok {hex32 (publishedCodeHash v)}"
+                     else s!"ok {hex32 (publishedCodeHash v)} BUT-the-code-cell-hashes-to {hexOut h}"
+          | _ => "err"
+      | _, _ => "bad-op"
+    | _ => "bad-op"),
   -- w.addr <ver> <seed> <pk> <wc|_> <sub|_> <net|_> <code>      wallet.New(...).GetAddress()
   ("w.addr", fun
     | [ver, _seed, pk, wc, sub, net, code] =>
@@ -81,7 +99,10 @@ def opsC15 : List (String × Handler) := [
     | [ver, pk, wc, sub, net, code] =>
       match ver.toNat?, hexArg pk, wc.toInt?, optNatArg sub, optIntArg net, cellArg code with
       | some ver, some pk, some wc, some sub, some net, some code =>
-        "ok " ++ cellOut (apiGenerateStateInit code ver pk net wc sub)
+        (match apiGenerateStateInit code ver pk net wc sub with
+        | .ok c => "ok " ++ cellOut c
+        | .err _ => "err"
+        | .panic _ => "panic")
       | _, _, _, _, _, _ => "bad-op"
     | _ => "bad-op"),
   -- w.send <ver> <seed> <pk> <wc|_> <sub|_> <net|_> <code> <state> <acctErr> <sendErr> <nMsgs> <waitMs> <polls>
